@@ -35,8 +35,8 @@ def B1_kind_blocks(repo, clause, funcs=None):
         counts = {k: len(buckets[k]) for k in ks}
         buckets = sib.align(buckets, ks)
         n = min(counts.values())
-        if n < need:
-            raise AnalysisError("B1: %s has only %d per-kind pieces (floor %d): %s" % (q, n, need, counts))
+        if max(counts.values()) < need:
+            raise AnalysisError("B1: %s has only %d per-kind pieces (floor %d): %s" % (q, max(counts.values()), need, counts))
         exc = B1_EXCEPTIONS.get(q, {})
         if len(set(counts.values())) > 1:
             obs.append(Ob("B1", clause, fn, fn.node, False,
